@@ -18,6 +18,13 @@ def load(path, default=None):
         return default
 
 
+def ofail(c):
+    n = c.get("oracle_failures")
+    if not n:
+        return "0 oracle failures"
+    return f"{n} oracle failures, every one matched by one of the {len(c.get('known_findings_hit', []))} listed known findings hit"
+
+
 def first_para(text):
     """title + first non-heading paragraph of a design note"""
     lines = text.split("\n")
@@ -58,9 +65,16 @@ for p in props:
         )
     out.append(
         f"*Last run:* {cov.get('evaluations')} cases ({cov.get('correspondence_cases')} through the model inside Coq, "
-        f"{cov.get('correspondence_disagreements')} differ), {cov.get('oracle_failures')} oracle failures "
-        f"({len(cov.get('known_findings_hit', []))} known findings), {ev.get('wall_s')} s.\n"
+        f"{cov.get('correspondence_disagreements')} differ), {ofail(cov)}, {ev.get('wall_s')} s.\n"
     )
+    evt = load(os.path.join(V, "docs", "evidence-thorough", pid + ".json"), {})
+    if evt:
+        ct = evt.get("coverage", {})
+        out.append(
+            f"*Last thorough run (copy of its evidence in `docs/evidence-thorough/`):* {ct.get('evaluations')} cases "
+            f"({ct.get('correspondence_cases')} through the model inside Coq, {ct.get('correspondence_disagreements')} differ), "
+            f"{ofail(ct)}, {evt.get('wall_s')} s.\n"
+        )
     if kf.get("fixed"):
         out.append("*Defects repaired in /repo:*\n")
         for f in kf["fixed"]:
@@ -99,12 +113,27 @@ out.append(
     "the quick check with `VERIF_REPO`.  'first run' is the verdict of the check as it stood when the change arrived; "
     "'final' after the check was strengthened where it had missed.\n"
 )
-out.append("| seed | files | what it needs to manifest | first run | final | caught by |\n|---|---|---|---|---|---|")
+seeds7 = load(os.path.join(V, "seeded", "RESULTS-seed7.json"), {})
+nc = sum(1 for v in seeds.values() if str(v.get("verdict", "")).startswith("caught"))
+nr = sum(1 for v in seeds.values() if "concrete" in str(v.get("verdict", "")))
+out.append(
+    f"Totals of the last full pass (`tools/seed_ledger.py`, VERIF_SEED=1): {len(seeds)} changes, {nc} reported "
+    f"({nr} with a concrete failing input as replay, the others as `no-failing-input-found`), "
+    f"{len(seeds) - nc} missed.  "
+    + (
+        f"A second full pass with another random stream (VERIF_SEED=7, column 'seed 7') shows which verdicts depend on "
+        f"the random cases: {sum(1 for v in seeds7.values() if str(v.get('verdict', '')).startswith('caught'))} of {len(seeds7)} reported.\n"
+        if seeds7
+        else "\n"
+    )
+)
+out.append("| seed | files | what it needs to manifest | first run | final | caught by | seed 7 |\n|---|---|---|---|---|---|---|")
 for sid in sorted(seeds):
     s = seeds[sid]
     m = load(os.path.join(V, "seeded", sid, "meta.json"), {})
     needs = str(m.get("needs", "")).replace("|", "/").replace("\n", " ")[:260]
-    out.append(f"| {sid} | {', '.join(m.get('files', []))[:80]} | {needs} | {s.get('first', '')} | {s.get('verdict', '')} | {s.get('by', '')} |")
+    s7 = seeds7.get(sid, {}).get("verdict", "")
+    out.append(f"| {sid} | {', '.join(m.get('files', []))[:80]} | {needs} | {s.get('first', '')} | {s.get('verdict', '')} | {s.get('by', '')} | {s7} |")
 out.append("")
 out.append(open(os.path.join(V, "docs", "DESIGN.tail.md")).read().rstrip())
 open(os.path.join(V, "DESIGN.md"), "w").write("\n".join(out) + "\n")
